@@ -631,6 +631,8 @@ func (modComp) Gen(r *rand.Rand, tier string, n int) []*wire.Case {
 		wire.R("dispel").I("t", 1).I("status", 1).I("order", 2).I("count", 2), wire.R("dispel").I("t", 1).I("status", 2).I("order", 1).I("count", 1), wire.R("dispel").I("t", 1).I("status", 2).I("order", 2).I("count", 0))
 	mk("d-listeners", cat2(one(add(1, 16, 1, 0, 0, "")), one(add(1, 18, 1, 0, 0, "")), one(add(1, 20, 1, 0, 0, "")), one(add(1, 20, 1, 3, 0, "")), one(add(1, 22, 1, 0, 0, "")), one(add(1, 0, 1, 0, 0, "")), one(add(1, 22, 1, 0, 0, "")),
 		turn(1), turn(1), turn(1), one(wire.R("rm").I("t", 1).I("name", 16)), one(add(1, 21, 2, 0, 0, "")), turn(1), turn(1))...)
+	mk("d-negative-duration", cat2([]*wire.Rec{add(1, 0, 1, -1, 0, ""), add(1, 3, 1, 0, 0, ""), add(1, 3, 1, 5, 0, ""), add(2, 4, 1, 3, 0, ""), add(2, 4, 1, -1, 0, ""), add(3, 5, 1, 2, 0, ""), add(3, 5, 1, -1, 0, ""), add(3, 10, 1, 0, -1, "")},
+		turn(1), turn(2), turn(3), turn(1), turn(2), turn(3), turn(1), turn(2), turn(3), turn(1))...)
 	mk("d-no-stack-increment", cat2([]*wire.Rec{add(1, 28, 1, 0, 0, ""), add(1, 28, 1, 0, 0, ""), add(1, 29, 1, 0, 0, ""), add(1, 29, 2, 0, 0, ""), add(1, 30, 1, 0, 0, ""), add(1, 30, 1, 0, 0, "")}, turn(1), turn(1), turn(1))...)
 	mk("d-extend-past-max", add(1, 3, 1, 2, 3, ""), add(1, 3, 2, 1, 0, ""), wire.R("extcnt").I("t", 1).I("name", 3).I("n", 5), wire.R("extcnt").I("t", 1).I("name", 3).I("n", 1), wire.R("extcnt").I("t", 1).I("name", 3).I("n", -2),
 		add(2, 18, 1, 0, 0, ""), wire.R("extcnt").I("t", 2).I("name", 18).I("n", 9), wire.R("extcnt").I("t", 2).I("name", 18).I("n", -9))
@@ -681,7 +683,8 @@ func (modComp) Gen(r *rand.Rand, tier string, n int) []*wire.Case {
 				if r.Intn(3) == 0 {
 					st = pick(r, atk, red, atk+"|"+red, atk, red, negpct, flat, negpct+"|"+flat, negflat, flat+"|"+red, conv, conv+"|"+flat, spd, spdconv, spd+"|"+conv)
 				}
-				op := add(t, name, pick(r, 1, 2, 3), pick(r, 0, 0, 1, 2, 3), pick(r, 0, 0, 1, 2), st)
+				// durations and counts: unspecified (0), explicit, and explicitly negative ("never expires" / "no count", overriding the shape's default)
+				op := add(t, name, pick(r, 1, 2, 3), pick(r, 0, 0, 1, 2, 3, -1, -2), pick(r, 0, 0, 1, 2, -1), st)
 				if r.Intn(4) == 0 {
 					st = ""
 					op = wire.R("addmod").I("t", t).I("name", name).I("src", pick(r, 1, 2)).I("dur", pick(r, 0, 1, 2)).I("count", pick(r, 0, 1)).I("max", pick(r, 0, 2, 6)).I("cadd", pick(r, 0, 2)).B("imm", r.Intn(2) == 0).S("stats", "-")
